@@ -27,6 +27,14 @@ class InjectedKeyboardInterrupt(KeyboardInterrupt, Injected):
     pass
 
 
+class SchedulerHang(Exception):
+    """Raised by the watchdog into a scheduler call that does not return (bounded liveness)."""
+
+
+def _hang_handler(signum, frame):
+    raise SchedulerHang("scheduler call did not return within the wall-clock budget")
+
+
 class Recorder(TunerCallback):
     def __init__(self, sim, scen):
         self.sim = sim
@@ -105,7 +113,8 @@ def _suggestion(ret):
     if ret is None:
         return None
     return {"new": bool(ret.spawn_new_trial_id), "ckpt": ret.checkpoint_trial_id,
-            "config": canon(ret.config) if ret.config is not None else None}
+            "config": canon(ret.config) if ret.config is not None else None,
+            "types": {str(k): type(v).__name__ for k, v in ret.config.items()} if ret.config is not None else None}
 
 
 class Latency:
@@ -129,8 +138,11 @@ class Latency:
             self.apply(d)
 
 
-def wrap_scheduler(sim, scheduler, latency, hooks=None):
+def wrap_scheduler(sim, scheduler, latency, hooks=None, hang_limit=12.0):
     """Instance-level wrappers around the scheduler's public callbacks."""
+    import signal
+
+    signal.signal(signal.SIGALRM, _hang_handler)
     depth = [0]
     hooks = hooks or {}
     originals = {}
@@ -159,7 +171,11 @@ def wrap_scheduler(sim, scheduler, latency, hooks=None):
                 if name in ("suggest", "on_trial_result"):
                     latency.maybe(name)
                 try:
-                    ret = orig(*args, **kwargs)
+                    signal.setitimer(signal.ITIMER_REAL, hang_limit)
+                    try:
+                        ret = orig(*args, **kwargs)
+                    finally:
+                        signal.setitimer(signal.ITIMER_REAL, 0)
                 except BaseException as e:
                     sim.log("s.exc", m=name, trial=rec["trial"], exc=type(e).__name__, msg=str(e)[:300],
                             where=_innermost_repo_frame(e))
